@@ -146,3 +146,36 @@ PROPS["C20"] = a("C01's generator restricted to what core.h can express (no sign
                  "callback sequence) and by the final database dump; force_change, must-follow, discovered dependencies, NUL bytes in keys and "
                  "values and attach_db schema versions are all generated. Non-trivial: an incremental build that both skipped and executed rules.")
 PROPS["C20"]["components"] = dict(WORLD_A_COMPONENTS, real=WORLD_A_COMPONENTS["real"] + ["products/libllbuild/Core-C-API.cpp", "products/libllbuild/C-API.cpp"])
+
+WORLD_D_COMPONENTS = {
+    "real": ["lib/Commands/NinjaBuildCommand.cpp (executeNinjaBuildCommand: option parsing, BuildContext, its BuildValue, validity rules, "
+             "update-if-newer, SIGINT watcher thread, console queue)", "lib/Ninja/ManifestLoader.cpp / Lexer / Parser / Manifest",
+             "lib/Core/BuildEngine.cpp", "lib/Core/SQLiteBuildDB.cpp", "lib/Core/MakefileDepsParser.cpp",
+             "lib/Basic/LaneBasedExecutionQueue.cpp / SerialQueue", "lib/Basic/Subprocess.cpp", "lib/Basic/FileInfo.cpp", "SQLite (static)"],
+    "simulated": ["file system and working directory (simfs)", "database disk (sqlite3_vfs)", "processes, pipes, poll/wait4 (simproc)",
+                  "thread scheduling and clock (detsched)"],
+    "stub": ["/bin/sh -c <command>: a simulated shell that splits the command line into words and runs the deterministic simulated compiler "
+             "named by it (reads explicit and implicit inputs and #include lines, writes hashed outputs and gcc-style depfiles; a restat "
+             "statement leaves an unchanged output alone)"],
+    "not_run": ["ninja -t tools, response files, console pool, manifest regeneration by a build statement, tracing, SIGINT"],
+}
+PROPS["C18"] = {
+    "level": "exploration",
+    "rule": "seeded manifests (2-10 statements over rules cc / ccdep (depfile, deps=gcc) / ccrestat / ccgen, explicit, implicit and order-only "
+            "inputs, two-output statements, pools of depth 1 and 2, a phony aggregate and default targets) x histories of {source and header "
+            "edits, output deletions, manifest edits that change a command line (variable, order of $in), injected failures with retry, "
+            "immediate rebuilds} x -j1..4 x with/without --db x --no-regenerate, each invocation a fresh executeNinjaBuildCommand under a "
+            "seeded schedule. Oracles: outputs equal an independent clean-build evaluation after every successful invocation (C18.1); with "
+            "the database, the set of executed commands equals a model of ninja's rule (never built / command line changed / output "
+            "missing / explicit-implicit-discovered input changed / producer ran and changed its output) - no unnecessary run (C18.2, "
+            "order-only edits included), no missed run (C18.3); a failure stops dependents, fails the invocation and is retried (C18.5); "
+            "no command twice per invocation (C18.6). Non-trivial: at least two invocations, one of which skipped a command.",
+    "components": WORLD_D_COMPONENTS,
+    "assumptions": ["commands are deterministic functions of explicit, implicit and depfile-reported inputs",
+                    "every edit is observable: the simulated clock is strictly monotonic, so an edited input is newer than every existing output",
+                    "without --db nothing is remembered between invocations (llbuild's documented behaviour), so the no-unnecessary-work clauses are "
+                    "only judged for runs with the database; contents, failure handling and retry are judged in both",
+                    "generator statements are exempt from command-line edits (that is what the flag means)",
+                    "preemption at synchronisation operations, simulated syscalls and harness yield points only"],
+    "budget": {"quick": 60, "thorough": 1200},
+}
